@@ -640,7 +640,7 @@ pub fn run(env: &Env) -> i32 {
         });
     }
     if !open_graph_defect {
-        rep.campaign("random-graphs", env.cases(20_000, 400_000), (10, 300), random_case);
+        rep.campaign("random-graphs", env.cases(80_000, 800_000), (10, 300), random_case);
     }
     rep.finish()
 }
